@@ -836,6 +836,8 @@ int reb_integrator_whfast_init(struct reb_simulation* const r){
     if (ri_whfast->N_allocated != N){
         ri_whfast->N_allocated = N;
         ri_whfast->p_jh = realloc(ri_whfast->p_jh,sizeof(struct reb_particle)*N);
+        // Not all members are set by the coordinate transformations. Avoid storing and comparing uninitialized memory.
+        memset(ri_whfast->p_jh, 0, sizeof(struct reb_particle)*N);
         ri_whfast->recalculate_coordinates_this_timestep = 1;
     }
     return 0;
